@@ -98,7 +98,7 @@ pub struct BuiltSrc {
     pub crypto: usize,
     pub comp: usize, // index into mpqx::COMP_*
     pub listfile: bool,
-    pub attrs: usize, // 0 none, 2 full
+    pub attrs: usize, // 0 none, 1 crc32 (not "full": its wall-clock timestamps would make stored sizes differ between runs)
     pub shift: u16,
     pub version: usize,
 }
@@ -109,7 +109,7 @@ impl BuiltSrc {
     }
     pub fn json(&self) -> Value {
         json!({"writer": "ArchiveBuilder", "version": format!("V{}", self.version + 1), "shape": SHAPES[self.shape], "crypto": CRYPTO[self.crypto],
-               "compression": COMP_NAMES[self.comp], "listfile": self.listfile, "attributes": if self.attrs == 0 { "none" } else { "full" },
+               "compression": COMP_NAMES[self.comp], "listfile": self.listfile, "attributes": if self.attrs == 0 { "none" } else { "crc32" },
                "shift": self.shift, "lengths": shape_lengths(self.shape, 512usize << self.shift)})
     }
     pub fn cfg(&self) -> Config {
@@ -141,7 +141,7 @@ pub fn built_sources(tier: Tier) -> Vec<BuiltSrc> {
     // slowest axis first in the loop nest => fastest axis varies fastest in the index
     for version in 0..4 {
         for &shift in &shifts {
-            for attrs in [0usize, 2] {
+            for attrs in [0usize, 1] {
                 for listfile in [true, false] {
                     for &comp in &comps {
                         for crypto in 0..4 {
@@ -262,7 +262,7 @@ pub fn foreign_sources(tier: Tier) -> Vec<ForeignSrc> {
 pub fn axes_json(tier: Tier) -> Value {
     json!({
         "built": {"shape": SHAPES, "crypto": CRYPTO, "compression": tier.pick(vec!["none", "zlib"], vec!["none", "zlib", "bzip2"]),
-                  "listfile": 2, "attributes": ["none", "full"], "shift": tier.pick(vec![3], vec![3, 0]), "version": 4},
+                  "listfile": 2, "attributes": ["none", "crc32"], "shift": tier.pick(vec![3], vec![3, 0]), "version": 4},
         "foreign": {"shape": FSHAPES, "crypto": CRYPTO, "compression": tier.pick(vec!["none", "zlib"], vec!["none", "zlib", "bzip2"]), "version": ["V1", "V2"]},
         "options": {"target": crate::opts::TARGETS, "compression_override": crate::opts::COMP_OV, "block_size_override": crate::opts::BS_OV,
                     "skip_encrypted": 2, "skip_signatures": 2, "verify": 2, "list_only": 2, "preserve_order": 2,
